@@ -4,7 +4,7 @@ INVARIANT NoPanic StackNonEmpty AcceptedAtTop TreeTotal
 ACTION_CONSTRAINT Emit
 VIEW View
 CONSTANTS
-  MaxLen = 9
+  MaxLen = 5
   PruneSyn = FALSE
   KeywordsUsed <- KwAll
   PointsUsed <- PtsFull
